@@ -151,6 +151,75 @@ def inst_sibling_accounting(cx, iid):
             inst.violation(r.path, "receiver packet_alloc_size", "receiver sizes a packet as %s, expected {fragments > 1: fragments*M, else len}" % forms)
 
 
+def inst_sender_alloc_pair(cx, iid):
+    """the sender's copy of the peer's allocation budget: what emit_packet charges for a packet is recorded
+    in its window entry and exactly that is refunded when the entry is acknowledged"""
+    R = cx.R
+    PS = "half_connection::packet_sender::PacketSender::"
+    with cx.instance(iid, "T2 PAIR + T7", "PacketSender.alloc: emit_packet adds alloc_size(len) and records it in the window entry; acknowledge subtracts the recorded size of the entry it releases; nothing else writes it", floor=4) as inst:
+        e = R.body(PS + "emit_packet")
+        X = r"packet_sender::alloc_size\(\[T\]::len\(VecDeque::front\(arg1\.packet_send_queue\)@Some\.0\.data\)\)"
+        ws = list(e.field_writes(r"arg1\.alloc"))
+        for l, node, ps in ws:
+            v = show(e.rvalue_expr(node["rv"])) if node["k"] == "assign" else show(e.call_expr(node))
+            inst.site(e, l, "alloc = " + v[:110])
+            if not re.fullmatch(rx_comm("add", r"arg1\.alloc", X), v):
+                inst.violation(e.path, "alloc charge", "emit_packet updates alloc by `%s`, expected alloc + alloc_size(len of the queued packet)" % v[:160], at=e.span_at(l))
+        if len(ws) != 1:
+            inst.violation(e.path, "alloc charge count", "emit_packet writes alloc at %d sites, expected one" % len(ws))
+        rec = 0
+        for l, s, _ps in e.field_writes(r"arg1\.window\[.*\]"):
+            if s["k"] != "assign":
+                continue
+            ex = e.rvalue_expr(s["rv"])
+            for m in re.finditer(r"WindowEntry\{", show(ex)):
+                rec += 1
+                # the aggregate's alloc_size operand
+                def find(t):
+                    if isinstance(t, tuple):
+                        if t and t[0] == "agg" and str(t[1]).endswith("WindowEntry") and len(t) > 3 and t[3] and "alloc_size" in t[3]:
+                            return t[2][list(t[3]).index("alloc_size")]
+                        for c in t:
+                            r = find(c)
+                            if r is not None:
+                                return r
+                    elif isinstance(t, list):
+                        for c in t:
+                            r = find(c)
+                            if r is not None:
+                                return r
+                    return None
+                a = find(ex)
+                av = show(a) if a is not None else None
+                inst.site(e, l, "WindowEntry.alloc_size = %s" % (av or "?")[:100])
+                if av is None or not re.fullmatch(X, av):
+                    inst.violation(e.path, "recorded alloc_size", "the window entry records `%s`, not the size that was charged" % av, at=e.span_at(l))
+        if rec != 1:
+            inst.violation(e.path, "window entry", "expected exactly one WindowEntry construction in emit_packet (anchor), found %d" % rec)
+        a = R.body(PS + "acknowledge")
+        IDX = r"arg1\.window\[cast<usize>\(bitand\((arg1\.base_id,arg1\.window_mask|arg1\.window_mask,arg1\.base_id)\)\)\]"
+        ws = list(a.field_writes(r"arg1\.alloc"))
+        for l, node, ps in ws:
+            v = show(a.rvalue_expr(node["rv"])) if node["k"] == "assign" else show(a.call_expr(node))
+            inst.site(a, l, "alloc = " + v[:110])
+            if not re.fullmatch(r"sub\(arg1\.alloc,Option::unwrap\(%s\)\.alloc_size\)" % IDX, v):
+                inst.violation(a.path, "alloc refund", "acknowledge updates alloc by `%s`, expected alloc - (released entry).alloc_size" % v[:160], at=a.span_at(l))
+        if len(ws) != 1:
+            inst.violation(a.path, "alloc refund count", "acknowledge writes alloc at %d sites, expected one" % len(ws))
+        # the refund and the release of the slot go together in the loop body
+        rel = [l for l, node, ps in a.field_writes(IDX) if node["k"] == "assign" and show(a.rvalue_expr(node["rv"])) == "None{}"]
+        for l in rel:
+            inst.site(a, l, "window[base] = None")
+        if ws:
+            cx.followed_by(inst, a, [(ws[0][0], "alloc refund")], rel, "refund without releasing the slot", "window[base & mask] = None")
+        if rel and ws:
+            cx.preceded_by(inst, a, [(l, "window[base] = None") for l in rel], [ws[0][0]], "slot released without refund", "alloc -= entry.alloc_size")
+        for ob in R.all_bodies():
+            if ob.path.startswith(PS) and ob.path not in (e.path, a.path):
+                for l, node, ps in ob.field_writes(r"arg1\.alloc"):
+                    inst.violation(ob.path, "write alloc", "PacketSender.alloc is written outside emit_packet/acknowledge", at=ob.span_at(l))
+
+
 def inst_handshake_limits(cx, iid):
     R = cx.R
     with cx.instance(iid, "T1 GUARD + T4", "handshake refuses peers whose limits cannot work; tx limit from the peer, rx limit from own configuration", floor=3) as inst:
@@ -169,21 +238,14 @@ def inst_handshake_limits(cx, iid):
             inst.site(bb, loc, "tx_alloc_limit=%s rx_alloc_limit=%s" % (c["tx_alloc_limit"][-40:], c["rx_alloc_limit"][-40:]))
             if not re.fullmatch(peer, c["tx_alloc_limit"]) or c["rx_alloc_limit"] != "arg1.config.endpoint_config.max_receive_alloc":
                 inst.violation(bb.path, "alloc limits", "tx_alloc_limit=%s rx_alloc_limit=%s; expected peer's max_receive_alloc / own max_receive_alloc" % (c["tx_alloc_limit"], c["rx_alloc_limit"]))
-        # advertised value is the configured one
-        for fn, adt in (("client::Client::connect", "HandshakeSynFrame"), ("server::Server::handle_handshake_syn", "HandshakeSynAckFrame")):
-            bb = R.body(fn)
-            for loc, s in bb.assigns():
-                rv = s["rv"]
-                if rv["k"] == "agg" and rv.get("adt", "").endswith(adt):
-                    v = show(bb.operand_expr(rv["ops"][rv["fields"].index("max_receive_alloc")]))
-                    inst.site(bb, loc, "%s.max_receive_alloc = %s" % (adt, v[:90]))
-                    if not re.fullmatch(r"cast<u32>\(Ord::min\((.*\.endpoint_config\.max_receive_alloc,cast<usize>\(core::num::<impl u32>::MAX\)|cast<usize>\(core::num::<impl u32>::MAX\),.*\.endpoint_config\.max_receive_alloc)\)\)", v):
-                        inst.violation(bb.path, "advertised max_receive_alloc", "the advertised receive allocation is `%s`, not the configured one" % v[:120], at=bb.span_at(loc))
+        # advertised values are the configured ones
+        from props.shared import advertised_limits
+        advertised_limits(cx, inst, ["max_receive_alloc", "max_packet_size"])
 
 
 def inst_growth(cx, iid):
     R = cx.R
-    with cx.instance(iid, "T1 + T3 GROWTH", "every growth call on a collection is guarded by a capacity fact or listed with its bounding argument", floor=45) as inst:
+    with cx.instance(iid, "T1 + T3 GROWTH", "every growth call on a collection is guarded by a capacity fact or listed with its bounding argument", floor=45, exact_floor=False) as inst:
         for b in R.all_bodies():
             for loc, t in b.calls():
                 sn = R.short(t.get("fn") or "")
@@ -239,9 +301,17 @@ def run(cx):
     inst_emit_guards(cx, "C06.d")
     inst_handshake_limits(cx, "C06.e")
     inst_growth(cx, "C06.f")
+    inst_sender_alloc_pair(cx, "C06.g")
+    # a stored packet that can never be delivered (impossible parent leads) is released from the counter
+    # when the window passes it but stays held in the delivery entries: the datagram validator's clauses
+    from props.C03 import check_validators
+    check_validators(cx, "C06.h")
 
 
 SELFTEST = [
+    {"name": "sender refunds the payload size instead of the charged allocation",
+     "edits": [{"file": "src/half_connection/packet_sender.rs", "old": "            self.alloc -= entry.alloc_size;", "new": "            self.alloc -= entry.packet.borrow().size();"}],
+     "expect": ["C06.g"]},
     {"name": "remove the allocation test in PacketSender::emit_packet",
      "edits": [{"file": "src/half_connection/packet_sender.rs", "old": "            if self.alloc + packet_alloc_size > self.max_alloc {\n                return None;\n            }\n", "new": ""}],
      "expect": ["C06.d"]},
